@@ -241,7 +241,8 @@ def expect_of(r):
     post = pairs(r.body) if (r.content_type or b'').lower().startswith(b'application/x-www-form-urlencoded') else []
     cl = str(len(r.body)) if (r.body or r.method == b'POST') else '0'
     # cookies (oracle only, not in the Coq model): a quoted value is delivered without its quotes
-    ck = sorted((k, v[1:-1] if v.startswith(b'"') else v) for k, v in getattr(r, 'cookies', {}).items())
+    has_cookie = any(n == b'Cookie' for n, _ in r.headers)      # generators may have dropped the header again
+    ck = sorted((k, v[1:-1] if v.startswith(b'"') else v) for k, v in (getattr(r, 'cookies', {}) if has_cookie else {}).items())
     return canon_item(r.method, r.script, urldecode(r.path), qs, r.content_type or b'', cl,
                       {k: v for k, v in env.items()}, pairs(qs), post, r.body) + ';K=' + (','.join(hx(k) + ':' + hx(v) for k, v in ck) or '-')
 
